@@ -25,16 +25,31 @@ type Op struct {
 	On    int
 }
 
-// RCScript: K processors (any mix of signals) are created by ONE factory from
-// ONE config value, so they share a limiter and its checker goroutine.
-type RCScript struct {
-	Cfg      Cfg
-	Signals  []string
-	Ops      []Op
-	FreezeMS int
+// RCGen is one generation of processors on the factory: K processors (any mix
+// of signals) created from ONE config object, so they share a limiter and its
+// checker goroutine.  Generations follow each other on the SAME factory, the
+// way pipelines are rebuilt by a long-lived factory: a generation starts after
+// the previous one was completely shut down.
+type RCGen struct {
+	// CfgMode: how this generation's config object relates to the previous one:
+	//   first             (generation 0)
+	//   new-equal-object  a NEW config object holding EQUAL settings (config reload with an unchanged section)
+	//   different         a new object with other settings
+	//   same-object       the previous generation's object again (excluded shape, see NOTES.md: on the
+	//                     pinned tree that re-uses the fully shut-down limiter, whose ticker is never re-armed)
+	CfgMode string
+	Cfg     Cfg
+	Signals []string
 	// Unstarted > 0: that many further processors are created from the same
 	// config and never started nor shut down (their existence must not matter).
 	Unstarted int
+	Ops       []Op
+}
+
+// RCScript is a sequence of generations on one factory.
+type RCScript struct {
+	Gens     []RCGen
+	FreezeMS int
 }
 
 var cRC = vt.New("C18", "refcount")
@@ -57,64 +72,91 @@ func genOnePhase(t *rapid.T, th Thr, signal string, next *int64, above bool) *Ph
 }
 
 func genRC(t *rapid.T) RCScript {
-	s := RCScript{
-		Cfg:      genCfg(t, gcModesAsync),
-		FreezeMS: rapid.IntRange(2, 5).Draw(t, "freeze"),
-	}
-	th := s.Cfg.thresholds()
-	k := rapid.IntRange(2, 5).Draw(t, "k")
-	for i := 0; i < k; i++ {
-		s.Signals = append(s.Signals, rapid.SampledFrom(sig.All).Draw(t, "signal"))
-	}
-	if rapid.IntRange(0, 4).Draw(t, "unstarted") == 0 {
-		s.Unstarted = rapid.IntRange(1, 2).Draw(t, "nunstarted")
-	}
-	var pending, running []int
-	for i := 0; i < k; i++ {
-		pending = append(pending, i)
-	}
+	s := RCScript{FreezeMS: rapid.IntRange(2, 5).Draw(t, "freeze")}
+	ngen := rapid.SampledFrom([]int{1, 1, 1, 2, 2, 2, 3}).Draw(t, "generations")
 	var next int64 = 1
 	above := rapid.Bool().Draw(t, "startabove")
-	// one case in ten may leave the lifecycle envelope of the main pass (these
-	// shapes are counted as excluded by runRC and exercised by TestLifecycleProbes)
-	outside := rapid.IntRange(0, 9).Draw(t, "outside") == 0
-	for len(pending)+len(running) > 0 {
-		if outside && s.Unstarted > 0 && len(running) > 0 && rapid.IntRange(0, 3).Draw(t, "stopidle") == 0 {
-			s.Ops = append(s.Ops, Op{Kind: "stop-idle"})
-		}
-		canStop := len(running) > 1 || (len(running) == 1 && (len(pending) == 0 || outside))
-		doStart := len(pending) > 0 && (!canStop || rapid.Bool().Draw(t, "start?"))
-		var op Op
-		if doStart {
-			i := rapid.IntRange(0, len(pending)-1).Draw(t, "which")
-			op = Op{Kind: "start", Proc: pending[i]}
-			running = append(running, pending[i])
-			pending = append(pending[:i], pending[i+1:]...)
+	for g := 0; g < ngen; g++ {
+		gen := RCGen{CfgMode: "first"}
+		if g == 0 {
+			gen.Cfg = genCfg(t, gcModesAsync)
 		} else {
-			i := rapid.IntRange(0, len(running)-1).Draw(t, "which")
-			op = Op{Kind: "stop", Proc: running[i]}
-			running = append(running[:i], running[i+1:]...)
+			gen.CfgMode = rapid.SampledFrom([]string{"new-equal-object", "new-equal-object", "new-equal-object", "different", "different", "same-object"}).Draw(t, "cfgmode")
+			if gen.CfgMode == "different" {
+				gen.Cfg = genCfg(t, gcModesAsync)
+			} else {
+				gen.Cfg = s.Gens[g-1].Cfg
+			}
 		}
-		if len(running) > 0 && (op.Kind == "stop" || rapid.Bool().Draw(t, "probe?")) {
-			op.On = running[rapid.IntRange(0, len(running)-1).Draw(t, "on")]
-			op.Probe = genOnePhase(t, th, s.Signals[op.On], &next, above)
-			above = !above
+		th := gen.Cfg.thresholds()
+		kmin := 2
+		if ngen > 1 {
+			kmin = 1
 		}
-		s.Ops = append(s.Ops, op)
+		k := rapid.IntRange(kmin, 5).Draw(t, "k")
+		for i := 0; i < k; i++ {
+			gen.Signals = append(gen.Signals, rapid.SampledFrom(sig.All).Draw(t, "signal"))
+		}
+		if rapid.IntRange(0, 4).Draw(t, "unstarted") == 0 {
+			gen.Unstarted = rapid.IntRange(1, 2).Draw(t, "nunstarted")
+		}
+		var pending, running []int
+		for i := 0; i < k; i++ {
+			pending = append(pending, i)
+		}
+		// one case in ten may leave the lifecycle envelope of the main pass (these
+		// shapes are counted as excluded by runRC and exercised by TestLifecycleProbes)
+		outside := rapid.IntRange(0, 9).Draw(t, "outside") == 0
+		first := true
+		for len(pending)+len(running) > 0 {
+			if outside && gen.Unstarted > 0 && len(running) > 0 && rapid.IntRange(0, 3).Draw(t, "stopidle") == 0 {
+				gen.Ops = append(gen.Ops, Op{Kind: "stop-idle"})
+			}
+			canStop := len(running) > 1 || (len(running) == 1 && (len(pending) == 0 || outside))
+			doStart := len(pending) > 0 && (!canStop || rapid.Bool().Draw(t, "start?"))
+			var op Op
+			if doStart {
+				i := rapid.IntRange(0, len(pending)-1).Draw(t, "which")
+				op = Op{Kind: "start", Proc: pending[i]}
+				running = append(running, pending[i])
+				pending = append(pending[:i], pending[i+1:]...)
+			} else {
+				i := rapid.IntRange(0, len(running)-1).Draw(t, "which")
+				op = Op{Kind: "stop", Proc: running[i]}
+				running = append(running[:i], running[i+1:]...)
+			}
+			// the first start of every generation is always probed (is the checker of THIS generation alive?)
+			if len(running) > 0 && (op.Kind == "stop" || first || rapid.Bool().Draw(t, "probe?")) {
+				op.On = running[rapid.IntRange(0, len(running)-1).Draw(t, "on")]
+				op.Probe = genOnePhase(t, th, gen.Signals[op.On], &next, above)
+				above = !above
+				// ... and followed at once by a second probe on the other side of the soft limit
+				if first && rapid.Bool().Draw(t, "twice") {
+					gen.Ops = append(gen.Ops, op)
+					op = Op{Kind: "probe", On: op.On, Probe: genOnePhase(t, th, gen.Signals[op.On], &next, above)}
+					above = !above
+				}
+			}
+			first = false
+			gen.Ops = append(gen.Ops, op)
+		}
+		s.Gens = append(s.Gens, gen)
 	}
 	return s
 }
 
 func keyRC(s *RCScript) string {
 	h := sha256.New()
-	fmt.Fprintf(h, "%v|%v|%d", s.Cfg, s.Signals, s.Unstarted)
-	for _, op := range s.Ops {
-		fmt.Fprintf(h, "|%s%d", op.Kind, op.Proc)
-		if op.Probe != nil {
-			fmt.Fprintf(h, "@%d:%d,%d", op.On, op.Probe.First, op.Probe.Post)
-			for _, c := range op.Probe.Calls {
-				h.Write(c.Payload)
-				h.Write([]byte(c.Downstream))
+	for _, g := range s.Gens {
+		fmt.Fprintf(h, "#%s|%v|%v|%d", g.CfgMode, g.Cfg, g.Signals, g.Unstarted)
+		for _, op := range g.Ops {
+			fmt.Fprintf(h, "|%s%d", op.Kind, op.Proc)
+			if op.Probe != nil {
+				fmt.Fprintf(h, "@%d:%d,%d", op.On, op.Probe.First, op.Probe.Post)
+				for _, c := range op.Probe.Calls {
+					h.Write(c.Payload)
+					h.Write([]byte(c.Downstream))
+				}
 			}
 		}
 	}
@@ -124,54 +166,72 @@ func keyRC(s *RCScript) string {
 func runRC(s RCScript) (nontrivial bool, key string, f *vt.Finding) {
 	c := cRC
 	key = keyRC(&s)
-	if a := s.Cfg.ambiguous(); a != "" {
-		c.Exclude("config/" + a)
-		return false, key, nil
+	if len(s.Gens) == 0 {
+		return false, key, vt.Failf("harness/script", "no generation")
 	}
-	th := s.Cfg.thresholds()
-	for _, op := range s.Ops {
-		if op.Probe != nil && (th.unjudgeable(op.Probe.First) || th.unjudgeable(op.Probe.Post)) {
-			c.Exclude("reading-within-rounding-band-of-inexact-threshold")
+	for gi := range s.Gens {
+		g := &s.Gens[gi]
+		if gi > 0 && g.CfgMode == "same-object" {
+			// judged prefix only
+			c.Exclude("generation-reusing-the-SAME-config-object-after-full-shutdown")
+			s.Gens = s.Gens[:gi]
+			break
+		}
+		if a := g.Cfg.ambiguous(); a != "" {
+			c.Exclude("config/" + a)
 			return false, key, nil
 		}
-	}
-	if !asyncIntervals(s.Cfg) {
-		c.Exclude("real-min-gc-interval(only judged by the statemachine check)")
-		return false, key, nil
-	}
-	// lifecycle shapes outside the main pass
-	state := make([]int, len(s.Signals)) // 0 created, 1 running, 2 stopped
-	run := 0
-	for _, op := range s.Ops {
-		if op.Kind == "stop-idle" {
-			c.Exclude("shutdown-of-a-never-started-sibling-while-others-run")
-			return false, key, nil
-		}
-		if op.Proc < 0 || op.Proc >= len(state) {
-			return false, key, vt.Failf("harness/script", "op on unknown processor %d", op.Proc)
-		}
-		switch op.Kind {
-		case "start":
-			if state[op.Proc] != 0 {
-				return false, key, vt.Failf("harness/script", "processor %d started twice", op.Proc)
-			}
-			if run == 0 && anyState(state, 2) {
-				c.Exclude("start-after-the-limiter-was-fully-shut-down")
+		th := g.Cfg.thresholds()
+		for _, op := range g.Ops {
+			if op.Probe != nil && (th.unjudgeable(op.Probe.First) || th.unjudgeable(op.Probe.Post)) {
+				c.Exclude("reading-within-rounding-band-of-inexact-threshold")
 				return false, key, nil
 			}
-			state[op.Proc], run = 1, run+1
-		case "stop":
-			if state[op.Proc] != 1 {
-				return false, key, vt.Failf("harness/script", "processor %d stopped while not running", op.Proc)
-			}
-			state[op.Proc], run = 2, run-1
 		}
-		if op.Probe != nil && (op.On < 0 || op.On >= len(state) || state[op.On] != 1) {
-			return false, key, vt.Failf("harness/script", "probe on processor %d which is not running", op.On)
+		if !asyncIntervals(g.Cfg) {
+			c.Exclude("real-min-gc-interval(only judged by the statemachine check)")
+			return false, key, nil
+		}
+		// lifecycle shapes outside the main pass
+		state := make([]int, len(g.Signals)) // 0 created, 1 running, 2 stopped
+		run := 0
+		for _, op := range g.Ops {
+			if op.Kind == "stop-idle" {
+				c.Exclude("shutdown-of-a-never-started-sibling-while-others-run")
+				return false, key, nil
+			}
+			if op.Kind != "probe" && (op.Proc < 0 || op.Proc >= len(state)) {
+				return false, key, vt.Failf("harness/script", "op on unknown processor %d", op.Proc)
+			}
+			switch op.Kind {
+			case "start":
+				if state[op.Proc] != 0 {
+					return false, key, vt.Failf("harness/script", "processor %d started twice", op.Proc)
+				}
+				if run == 0 && anyState(state, 2) {
+					c.Exclude("start-after-the-limiter-was-fully-shut-down")
+					return false, key, nil
+				}
+				state[op.Proc], run = 1, run+1
+			case "stop":
+				if state[op.Proc] != 1 {
+					return false, key, vt.Failf("harness/script", "processor %d stopped while not running", op.Proc)
+				}
+				state[op.Proc], run = 2, run-1
+			case "probe":
+			default:
+				return false, key, vt.Failf("harness/script", "unknown op %q", op.Kind)
+			}
+			if op.Probe != nil && (op.On < 0 || op.On >= len(state) || state[op.On] != 1) {
+				return false, key, vt.Failf("harness/script", "probe on processor %d which is not running", op.On)
+			}
+		}
+		if run != 0 {
+			return false, key, vt.Failf("harness/script", "generation %d leaves %d processors running", gi, run)
 		}
 	}
-	c.HangGuard(180*time.Second, s, "hang/refcount", func() {
-		nontrivial, f = runRCInner(c, &s, th)
+	c.HangGuard(240*time.Second, s, "hang/refcount", func() {
+		nontrivial, f = runRCInner(c, &s)
 	})
 	return nontrivial, key, f
 }
@@ -185,51 +245,76 @@ func anyState(st []int, v int) bool {
 	return false
 }
 
-func runRCInner(c *vt.C, s *RCScript, th Thr) (nontrivial bool, f *vt.Finding) {
+func runRCInner(c *vt.C, s *RCScript) (nontrivial bool, f *vt.Finding) {
 	ctx := context.Background()
-	cfg := s.Cfg.real(time.Millisecond)
-	if err := cfg.Validate(); err != nil {
-		return false, vt.Failf("harness/config", "generated config rejected by Validate: %v (%v)", err, s.Cfg)
-	}
-	src := newSource(s.Cfg.TotalMem, false)
+	factory := memorylimiterprocessor.NewFactory() // ONE factory for all generations
+	src := newSource(0, false)                     // ONE memory source: whatever limiter a generation gets reads it
 	src.setLevel(0, 0)
-	factory := memorylimiterprocessor.NewFactory()
-	restore := src.install()
-	var procs []*proc
-	for i := 0; i < len(s.Signals)+s.Unstarted; i++ {
-		signal := sig.Logs
-		if i < len(s.Signals) {
-			signal = s.Signals[i]
+	stopsWithOthers := 0
+	for gi := range s.Gens {
+		g := &s.Gens[gi]
+		th := g.Cfg.thresholds()
+		cfg := g.Cfg.real(time.Millisecond) // a fresh config object per generation
+		if err := cfg.Validate(); err != nil {
+			return false, vt.Failf("harness/config", "generated config rejected by Validate: %v (%v)", err, g.Cfg)
 		}
-		p, err := newProc(ctx, factory, signal, cfg)
-		if err != nil {
-			restore()
-			return false, vt.Failf("harness/new", "create processor %d: %v (%v)", i, err, s.Cfg)
+		src.mu.Lock()
+		src.total = g.Cfg.TotalMem
+		src.mu.Unlock()
+		restore := src.install()
+		var procs []*proc
+		for i := 0; i < len(g.Signals)+g.Unstarted; i++ {
+			signal := sig.Logs
+			if i < len(g.Signals) {
+				signal = g.Signals[i]
+			}
+			p, err := newProc(ctx, factory, signal, cfg)
+			if err != nil {
+				restore()
+				return false, vt.Failf("harness/new", "generation %d: create processor %d: %v (%v)", gi, i, err, g.Cfg)
+			}
+			if i < len(g.Signals) {
+				procs = append(procs, p)
+			}
 		}
-		if i < len(s.Signals) {
-			procs = append(procs, p)
-		}
-	}
-	restore()
-	defer func() {
-		for _, p := range procs {
+		restore()
+		n, sf := runGeneration(c, s, gi, procs, src, th)
+		for _, p := range procs { // only after a failure anything is still running
 			if p.running {
 				_ = p.comp.Shutdown(ctx)
 			}
 		}
-	}()
-	c.Class(fmt.Sprintf("k=%d", len(procs)))
-	if s.Unstarted > 0 {
+		if sf != nil {
+			return true, sf
+		}
+		stopsWithOthers += n
+		if f := frozen(src, s.FreezeMS, fmt.Sprintf("generation %d: %d processors sharing one limiter", gi, len(procs))); f != nil {
+			return true, f
+		}
+		c.Class(fmt.Sprintf("k=%d", len(procs)))
+		if gi > 0 {
+			c.Class("generation>0:" + g.CfgMode)
+		}
+	}
+	c.Class(fmt.Sprintf("generations=%d", len(s.Gens)))
+	return stopsWithOthers >= 1 || len(s.Gens) > 1, nil
+}
+
+// runGeneration executes the lifecycle events of one generation.
+func runGeneration(c *vt.C, s *RCScript, gi int, procs []*proc, src *source, th Thr) (stopsWithOthers int, f *vt.Finding) {
+	ctx := context.Background()
+	g := &s.Gens[gi]
+	if g.Unstarted > 0 {
 		c.Class("with-never-started-siblings")
 	}
 	running := 0
-	stopsWithOthers, startsAfterStop, anyStop := 0, 0, false
-	for oi, op := range s.Ops {
-		p := procs[op.Proc]
+	startsAfterStop, anyStop := 0, false
+	for oi, op := range g.Ops {
 		switch op.Kind {
 		case "start":
+			p := procs[op.Proc]
 			if err := p.comp.Start(ctx, componenttest.NewNopHost()); err != nil {
-				return true, vt.Failf("refcount/start-error", "op %d: Start of processor %d returned %v", oi, op.Proc, err)
+				return 0, vt.Failf("refcount/start-error", "generation %d op %d: Start of processor %d returned %v", gi, oi, op.Proc, err)
 			}
 			p.running = true
 			running++
@@ -237,12 +322,13 @@ func runRCInner(c *vt.C, s *RCScript, th Thr) (nontrivial bool, f *vt.Finding) {
 				startsAfterStop++
 			}
 		case "stop":
+			p := procs[op.Proc]
 			err := p.comp.Shutdown(ctx)
 			p.running = false
 			running--
 			anyStop = true
 			if err != nil {
-				return true, vt.Failf("refcount/shutdown-error", "op %d: Shutdown of started processor %d returned %v (%d siblings still running)", oi, op.Proc, err, running)
+				return 0, vt.Failf("refcount/shutdown-error", "generation %d op %d: Shutdown of started processor %d returned %v (%d siblings still running)", gi, oi, op.Proc, err, running)
 			}
 			if running > 0 {
 				stopsWithOthers++
@@ -250,40 +336,41 @@ func runRCInner(c *vt.C, s *RCScript, th Thr) (nontrivial bool, f *vt.Finding) {
 		}
 		if op.Probe != nil {
 			ph := op.Probe
-			where := fmt.Sprintf("after op %d (%s #%d; %d of %d processors running) probe on #%d %s (first=%d [%s] post=%d [%s], soft=%d hard=%d, %v)",
-				oi, op.Kind, op.Proc, running, len(procs), op.On, procs[op.On].signal, ph.First, th.place(ph.First), ph.Post, th.place(ph.Post), th.Soft, th.Hard, s.Cfg)
+			where := fmt.Sprintf("generation %d [%s] after op %d (%s #%d; %d of %d processors running) probe on #%d %s (first=%d [%s] post=%d [%s], soft=%d hard=%d, %v)",
+				gi, g.CfgMode, oi, op.Kind, op.Proc, running, len(procs), op.On, procs[op.On].signal, ph.First, th.place(ph.First), ph.Post, th.place(ph.Post), th.Soft, th.Hard, g.Cfg)
 			id := src.setLevel(ph.First, ph.Post)
 			if why := src.awaitCheckWhy(id, stallTicks); why != "" {
-				return true, vt.Failf(stallSig("refcount/checker-stopped-while-users-remain", why), "%s: %s", where, why)
+				stalled := "refcount/checker-stopped-while-users-remain"
+				if gi > 0 && !anyStop {
+					stalled = "generation/checker-not-running/" + g.CfgMode
+				}
+				return 0, vt.Failf(stallSig(stalled, why), "%s: %s", where, why)
 			}
-			want, wantGC := expectRefuse(s.Cfg, th, ph.First, ph.Post)
+			want, wantGC := expectRefuse(g.Cfg, th, ph.First, ph.Post)
 			for j, cl := range ph.Calls {
 				if f := procs[op.On].call(c, cl, want, fmt.Sprintf("%s call %d", where, j)); f != nil {
-					return true, f
+					return 0, f
 				}
 			}
-			if f := phaseGCCheck(src, id, s.Cfg, th, ph.First, wantGC, where); f != nil {
-				return true, f
+			if f := phaseGCCheck(src, id, g.Cfg, th, ph.First, wantGC, where); f != nil {
+				return 0, f
 			}
 			if op.Kind == "stop" {
 				c.Class(fmt.Sprintf("probe-after-partial-shutdown:refuse=%v", want))
 			}
+			if gi > 0 {
+				c.Class(fmt.Sprintf("probe-in-generation>0:refuse=%v", want))
+			}
 		}
-	}
-	if running != 0 {
-		return false, vt.Failf("harness/script", "script leaves %d processors running", running)
-	}
-	if f := frozen(src, s.FreezeMS, fmt.Sprintf("%d processors sharing one limiter", len(procs))); f != nil {
-		return true, f
 	}
 	if startsAfterStop > 0 {
 		c.Class("start-interleaved-after-a-sibling-shutdown")
 	}
 	c.Class(fmt.Sprintf("shutdowns-with-siblings-running=%d", stopsWithOthers))
-	return stopsWithOthers >= 1, nil
+	return stopsWithOthers, nil
 }
 
 func TestRefCount(t *testing.T) {
 	shrinkBudget("10s") // a failing case costs milliseconds to seconds: bound the time rapid spends minimising
-	vt.Run(t, cRC, vt.N(700, 16000), genRC, runRC)
+	vt.Run(t, cRC, vt.N(600, 16000), genRC, runRC)
 }
